@@ -948,13 +948,17 @@ Lemma masked_payload_meta cx p p1 : masked_payload cx p = Ok p1 -> meta p1 = met
 Proof.
   unfold masked_payload. destruct (knd p).
   - intros E; inversion E; reflexivity.
-  - destruct (cmk cx) as [|m|m].
+  - destruct (cmk cx) as [|m|m|cm|m cm].
     + intros E; inversion E; reflexivity.
     + destruct (geok p); try (intros E; inversion E; reflexivity);
         destruct (verts p); try (intros E; inversion E; reflexivity);
         destruct (Nat.eqb _ _); intros E; inversion E; reflexivity.
     + intros E; inversion E; reflexivity.
-  - destruct (cmk cx) as [|m|m]; destruct (vals p) as [v|]; try (intros E; inversion E; reflexivity).
+    + destruct (geok p); intros E; inversion E; reflexivity.
+    + destruct (geok p); try (intros E; inversion E; reflexivity);
+        destruct (verts p); try (intros E; inversion E; reflexivity);
+        destruct (Nat.eqb _ _); intros E; inversion E; reflexivity.
+  - destruct (cmk cx) as [|m|m|cm|m cm]; destruct (vals p) as [v|]; try (intros E; inversion E; reflexivity).
     + destruct (negb _); [discriminate|]. destruct (match asc p with ACell => pnc cx | _ => pnv cx end); [|discriminate].
       intros E; inversion E; reflexivity.
     + destruct (Nat.eqb _ _); intros E; inversion E; reflexivity.
@@ -1127,8 +1131,8 @@ Proof.
 Qed.
 
 (* ------------------------------------------------------------------ the two refuted full statements and their witnesses *)
-Definition o_plain : opts := {| o_children := true; o_mask := None; o_omit_meta := false; o_over := []; o_clear := false |}.
-Definition o_clearing : opts := {| o_children := true; o_mask := None; o_omit_meta := false; o_over := []; o_clear := true |}.
+Definition o_plain : opts := {| o_children := true; o_mask := None; o_omit_meta := false; o_over := []; o_clear := false; o_cmask := None |}.
+Definition o_clearing : opts := {| o_children := true; o_mask := None; o_omit_meta := false; o_over := []; o_clear := true; o_cmask := None |}.
 
 Definition p_root : payload := mkp 0 KGroup GPlain AObject [] [] [] 0 None None false None.
 Definition p_points : payload := mkp 1 KObject GPoints AObject [(5, 6)%Z] [7; 8]%Z [] 0 None (Some 50%N) false None.
